@@ -117,7 +117,7 @@ Inductive pmove (s : state) (b : block) : phase -> Prop :=
 | PM_wait : (bph b = Idle /\ owner_ok s (bpar b) = true \/ bph b = WaitAvail) ->
             (bclaim b = false \/ bph b = WaitAvail) ->
             lge (nkeys s) (pool (bpar b) s) (bdeb b) = false -> pmove s b WaitAvail
-| PM_refuse : bph b = Idle -> bclaim b = true ->
+| PM_refuse : bph b = Idle -> owner_ok s (bpar b) = true -> bclaim b = true ->
             lge (nkeys s) (pool (bpar b) s) (bdeb b) = false -> pmove s b Gone
 | PM_abort : bph b = WaitAvail \/ bph b = Returning -> pmove s b Gone
 | PM_hold : bph b = Filling -> pmove s b Holding.
@@ -546,4 +546,865 @@ Proof.
     apply WAKE_setpool; [|side]. apply P5. auto.
   - apply P3. apply WAKE_setpool; [|side]. auto.
   - apply P3. apply WAKE_setpool; [|side]. auto.
+Qed.
+
+(* ---------------- accessors stable under the primitives *)
+Definition phs (s : state) (i : nat) : option phase := option_map bph (blk s i).
+Definition pars (s : state) (i : nat) : option nat := option_map bpar (blk s i).
+Definition debs (s : state) (i : nat) : levels :=
+  match blk s i with Some b => bdeb b | None => [] end.
+
+Lemma phs_setph : forall s i p j,
+  phs (setph i p s) j = if (j =? i)%nat then option_map (fun _ => p) (phs s j) else phs s j.
+Proof.
+  intros. unfold phs. rewrite blk_setph. destruct (j =? i)%nat; auto.
+  destruct (blk s j); reflexivity.
+Qed.
+Lemma phs_setpool : forall s q v j, phs (setpool q v s) j = phs s j.
+Proof.
+  intros. unfold phs. rewrite blk_setpool. destruct (blk s j); simpl; auto.
+  rewrite bph_mark. reflexivity.
+Qed.
+Lemma pars_setph : forall s i p j, pars (setph i p s) j = pars s j.
+Proof.
+  intros. unfold pars. rewrite blk_setph. destruct (j =? i)%nat; auto.
+  destruct (blk s j); reflexivity.
+Qed.
+Lemma pars_setpool : forall s q v j, pars (setpool q v s) j = pars s j.
+Proof.
+  intros. unfold pars. rewrite blk_setpool. destruct (blk s j); simpl; auto.
+  rewrite bpar_mark. reflexivity.
+Qed.
+Lemma debs_setph : forall s i p j, debs (setph i p s) j = debs s j.
+Proof.
+  intros. unfold debs. rewrite blk_setph. destruct (j =? i)%nat; auto.
+  destruct (blk s j); reflexivity.
+Qed.
+Lemma debs_setpool : forall s q v j, debs (setpool q v s) j = debs s j.
+Proof.
+  intros. unfold debs. rewrite blk_setpool. destruct (blk s j); simpl; auto.
+  rewrite bdeb_mark. reflexivity.
+Qed.
+Lemma phs_chins : forall s q d j, phs (chins q d s) j = phs s j. Proof. reflexivity. Qed.
+Lemma phs_push : forall s g j, phs (push g s) j = phs s j. Proof. reflexivity. Qed.
+Lemma phs_pop : forall s j, phs (pop s) j = phs s j. Proof. reflexivity. Qed.
+Lemma pars_chins : forall s q d j, pars (chins q d s) j = pars s j. Proof. reflexivity. Qed.
+Lemma pars_push : forall s g j, pars (push g s) j = pars s j. Proof. reflexivity. Qed.
+Lemma pars_pop : forall s j, pars (pop s) j = pars s j. Proof. reflexivity. Qed.
+Lemma debs_chins : forall s q d j, debs (chins q d s) j = debs s j. Proof. reflexivity. Qed.
+Lemma debs_push : forall s g j, debs (push g s) j = debs s j. Proof. reflexivity. Qed.
+Lemma debs_pop : forall s j, debs (pop s) j = debs s j. Proof. reflexivity. Qed.
+Lemma gbq_setph : forall s i p, gbq (setph i p s) = gbq s. Proof. reflexivity. Qed.
+Lemma gbq_setpool : forall s q v, gbq (setpool q v s) = gbq s. Proof. reflexivity. Qed.
+Lemma gbq_chins : forall s q d, gbq (chins q d s) = gbq s. Proof. reflexivity. Qed.
+Lemma gbq_push : forall s g, gbq (push g s) = gbq s ++ g. Proof. reflexivity. Qed.
+Lemma gbq_pop : forall s, gbq (pop s) = tl (gbq s). Proof. reflexivity. Qed.
+Lemma nkeys_setph : forall s i p, nkeys (setph i p s) = nkeys s. Proof. reflexivity. Qed.
+Lemma nkeys_setpool : forall s q v, nkeys (setpool q v s) = nkeys s. Proof. reflexivity. Qed.
+Lemma nkeys_chins : forall s q d, nkeys (chins q d s) = nkeys s. Proof. reflexivity. Qed.
+Lemma nkeys_push : forall s g, nkeys (push g s) = nkeys s. Proof. reflexivity. Qed.
+Lemma nkeys_pop : forall s, nkeys (pop s) = nkeys s. Proof. reflexivity. Qed.
+
+#[local] Hint Rewrite phs_setph phs_setpool pars_setph pars_setpool debs_setph debs_setpool
+  phs_chins phs_push phs_pop pars_chins pars_push pars_pop debs_chins debs_push debs_pop
+  gbq_setph gbq_setpool gbq_chins gbq_push gbq_pop
+  nkeys_setph nkeys_setpool nkeys_chins nkeys_push nkeys_pop : bp.
+
+Lemma blk_acc : forall s i b, blk s i = Some b ->
+  phs s i = Some (bph b) /\ pars s i = Some (bpar b) /\ debs s i = bdeb b.
+Proof. intros. unfold phs, pars, debs. rewrite H. auto. Qed.
+
+(* the new-block state *)
+Definition newst (s : state) (q : nat) (d : levels) (cl : bool) : state :=
+  mkS (nkeys s) (cap s) (pools s ++ [[]]) (ins s ++ [[]])
+      (blocks s ++ [mkB q d cl Idle false]) (gbq s).
+
+Lemma blk_newst : forall s q d cl j,
+  blk (newst s q d cl) j =
+  if (j <? length (blocks s))%nat then blk s j
+  else if (j =? length (blocks s))%nat then Some (mkB q d cl Idle false) else None.
+Proof. intros. unfold blk, newst. simpl. apply nth_error_snoc. Qed.
+
+Lemma blk_none : forall s j, (length (blocks s) <= j)%nat -> blk s j = None.
+Proof. intros. apply nth_error_None. auto. Qed.
+
+Lemma phs_newst : forall s q d cl j,
+  phs (newst s q d cl) j =
+  if (j <? length (blocks s))%nat then phs s j
+  else if (j =? length (blocks s))%nat then Some Idle else None.
+Proof.
+  intros. unfold phs. rewrite blk_newst. destruct (j <? _)%nat; auto. destruct (j =? _)%nat; auto.
+Qed.
+Lemma pars_newst : forall s q d cl j,
+  pars (newst s q d cl) j =
+  if (j <? length (blocks s))%nat then pars s j
+  else if (j =? length (blocks s))%nat then Some q else None.
+Proof.
+  intros. unfold pars. rewrite blk_newst. destruct (j <? _)%nat; auto. destruct (j =? _)%nat; auto.
+Qed.
+Lemma debs_newst : forall s q d cl j,
+  debs (newst s q d cl) j =
+  if (j <? length (blocks s))%nat then debs s j
+  else if (j =? length (blocks s))%nat then d else [].
+Proof.
+  intros. unfold debs. rewrite blk_newst. destruct (j <? _)%nat; auto. destruct (j =? _)%nat; auto.
+Qed.
+Lemma pars_lt : forall s j q, WF s -> pars s j = Some q -> (q <= j)%nat /\ (j < length (blocks s))%nat.
+Proof.
+  intros s j q (L1 & L2 & B & G) H. unfold pars in H. destruct (blk s j) as [c|] eqn:Hc; [|discriminate].
+  simpl in H. inversion H; subst. destruct (B j c Hc) as (X & _). split; auto. eapply blk_lt; eauto.
+Qed.
+
+Definition early (p : phase) : bool :=
+  match p with Idle | WaitAvail | Taking | Filling => true | _ => false end.
+
+Definition EARLY (s : state) : Prop :=
+  forall i p, phs s i = Some p -> early p = true ->
+  (forall j, pars s j = Some (S i) -> phs s j = Some Idle) /\
+  (forall q d, In (GbPar q d) (gbq s) -> q <> S i).
+
+Lemma gsum_zero : forall q k gl, (forall q' d, In (GbPar q' d) gl -> q' <> q) -> gsum q k gl = 0.
+Proof.
+  induction gl; simpl; intros; auto. rewrite IHgl by (intros; eapply H; eauto).
+  destruct a; simpl; auto. destruct (q0 =? q)%nat eqn:E; auto.
+  apply Nat.eqb_eq in E. exfalso. eapply H; eauto.
+Qed.
+
+Lemma osum_zero : forall q k bl,
+  (forall j c, nth_error bl j = Some c -> bpar c = q -> held (bph c) = false) -> osum q k bl = 0.
+Proof.
+  induction bl; simpl; intros; auto.
+  rewrite IHbl by (intros j c Hc; apply (H (S j) c Hc)).
+  unfold outb. destruct (bpar a =? q)%nat eqn:E; simpl; auto.
+  apply Nat.eqb_eq in E. rewrite (H 0%nat a eq_refl E). reflexivity.
+Qed.
+
+Lemma early_out_zero : forall s i p k, EARLY s -> phs s i = Some p -> early p = true ->
+  outstanding (S i) k s = 0.
+Proof.
+  intros s i p k E Hp He. destruct (E i p Hp He) as [E1 E2]. unfold outstanding.
+  rewrite gsum_zero by auto. rewrite osum_zero; auto.
+  intros j c Hc Hq. assert (X : phs s j = Some Idle).
+  { apply E1. unfold pars, blk. rewrite Hc. simpl. congruence. }
+  unfold phs, blk in X. rewrite Hc in X. simpl in X. inversion X. rewrite H0. reflexivity.
+Qed.
+
+Lemma owner_ok_S : forall s j, owner_ok s (S j) = true -> phs s j = Some Holding.
+Proof.
+  intros s j H. unfold owner_ok in H. unfold phs, blk. destruct (nth_error (blocks s) j); try discriminate.
+  simpl. destruct (bph b); try discriminate. reflexivity.
+Qed.
+
+Lemma EARLY_frame : forall s s',
+  (forall j, phs s' j = phs s j) -> (forall j, pars s' j = pars s j) ->
+  (forall g, In g (gbq s') -> In g (gbq s)) -> EARLY s -> EARLY s'.
+Proof.
+  intros s s' Hp Hq Hg E i p Hi He. rewrite Hp in Hi. destruct (E i p Hi He) as [E1 E2]. split.
+  - intros j Hj. rewrite Hq in Hj. rewrite Hp. auto.
+  - intros q d Hin. apply Hg in Hin. eauto.
+Qed.
+
+Lemma EARLY_setph : forall s i p b, EARLY s -> blk s i = Some b -> (bpar b <= i)%nat ->
+  (early p = true -> early (bph b) = true) ->
+  (bph b <> Idle \/ owner_ok s (bpar b) = true) -> EARLY (setph i p s).
+Proof.
+  intros s i p b E Hb Hle Hearly Hown i0 p0 Hp0 He0.
+  destruct (blk_acc _ _ _ Hb) as (A1 & A2 & A3).
+  rewrite phs_setph in Hp0. destruct (i0 =? i)%nat eqn:E0.
+  - apply Nat.eqb_eq in E0. subst i0. rewrite A1 in Hp0. simpl in Hp0. inversion Hp0; subst p0.
+    destruct (E i (bph b) A1 (Hearly He0)) as [E1 E2]. split; auto.
+    intros j Hj. rewrite pars_setph in Hj. rewrite phs_setph.
+    destruct (j =? i)%nat eqn:Ej; auto. apply Nat.eqb_eq in Ej. subst j.
+    rewrite A2 in Hj. inversion Hj. lia.
+  - destruct (E i0 p0 Hp0 He0) as [E1 E2]. split; auto.
+    intros j Hj. rewrite pars_setph in Hj. rewrite phs_setph.
+    destruct (j =? i)%nat eqn:Ej; auto. apply Nat.eqb_eq in Ej. subst j.
+    exfalso. pose proof (E1 i Hj) as X. rewrite A1 in X. inversion X as [X'].
+    destruct Hown as [F | F]; [congruence|].
+    rewrite A2 in Hj. inversion Hj as [Hq]. rewrite Hq in F. apply owner_ok_S in F.
+    rewrite F in Hp0. inversion Hp0; subst p0. discriminate.
+Qed.
+
+Lemma EARLY_trans : forall s s', WF s -> EARLY s -> trans s s' -> EARLY s'.
+Proof.
+  intros s s' (L1 & L2 & B & G) E T.
+  assert (FR : forall s0 s1, (forall j, phs s1 j = phs s0 j) -> (forall j, pars s1 j = pars s0 j) ->
+            (forall g, In g (gbq s1) -> In g (gbq s0)) -> EARLY s0 -> EARLY s1) by apply EARLY_frame.
+  destruct T; auto; unfold chpool;
+    try (pose proof (blk_lt _ _ _ H) as Hi; destruct (B _ _ H) as (W1 & W2 & W3);
+         destruct (blk_acc _ _ _ H) as (A1 & A2 & A3)).
+  - (* new *)
+    fold (newst s q d cl). intros i p Hp He. rewrite phs_newst in Hp.
+    assert (WFs : WF s) by (unfold WF; auto).
+    assert (GQ : forall q' d', In (GbPar q' d') (gbq s) -> (q' < length (pools s))%nat).
+    { intros q' d' Hin. rewrite Forall_forall in G. apply G in Hin. simpl in Hin. tauto. }
+    destruct (i <? length (blocks s))%nat eqn:Ei.
+    + apply Nat.ltb_lt in Ei. destruct (E i p Hp He) as [E1 E2]. split; auto.
+      intros j Hj. rewrite pars_newst in Hj. rewrite phs_newst.
+      destruct (j <? length (blocks s))%nat; auto.
+      destruct (j =? length (blocks s))%nat; auto; discriminate.
+    + destruct (i =? length (blocks s))%nat eqn:Ei2; [|discriminate].
+      apply Nat.eqb_eq in Ei2. subst i. split.
+      * intros j Hj. rewrite pars_newst in Hj. destruct (j <? length (blocks s))%nat eqn:Ej.
+        -- apply (pars_lt s j _ WFs) in Hj. lia.
+        -- destruct (j =? length (blocks s))%nat; [|discriminate]. inversion Hj. lia.
+      * intros q' d' Hin. apply GQ in Hin. simpl in Hin. lia.
+  - (* phase move *)
+    eapply EARLY_setph; eauto.
+    + inversion H0; subst; simpl; intros; try discriminate;
+        repeat match goal with H : _ \/ _ |- _ => destruct H | H : _ /\ _ |- _ => destruct H end;
+        match goal with H : bph b = _ |- _ => rewrite H end; reflexivity.
+    + inversion H0; subst;
+        repeat match goal with H : _ \/ _ |- _ => destruct H | H : _ /\ _ |- _ => destruct H end;
+        auto; left; congruence.
+  - (* take *)
+    eapply FR; [intros; apply phs_setpool | intros; apply pars_setpool | auto |].
+    eapply EARLY_setph; eauto.
+    + intros _. destruct H0 as [[P _] | [P _]]; rewrite P; reflexivity.
+    + destruct H0 as [[P O] | [P _]]; auto. left. congruence.
+  - (* fill *)
+    eapply FR; [intros; rewrite phs_chins; apply phs_setpool
+               | intros; rewrite pars_chins; apply pars_setpool | auto |].
+    eapply EARLY_setph; eauto.
+    + rewrite H0. reflexivity.
+    + left. congruence.
+  - (* empty *)
+    eapply FR; [intros; rewrite phs_chins; apply phs_setpool
+               | intros; rewrite pars_chins; apply pars_setpool | auto |].
+    eapply EARLY_setph; eauto.
+    + discriminate.
+    + left. congruence.
+  - (* return *)
+    eapply FR; [intros; apply phs_setpool | intros; apply pars_setpool | auto |].
+    eapply EARLY_setph; eauto.
+    + discriminate.
+    + left. congruence.
+  - (* giveback *)
+    assert (HP : held (bph b) = true).
+    { destruct H0 as [[[P | P] _] | [[P _] | [P _]]]; rewrite P; reflexivity. }
+    assert (E' : EARLY (setph i Gone s)).
+    { eapply EARLY_setph; eauto. discriminate. left. intro F. rewrite F in HP. discriminate. }
+    intros i0 p0 Hp0 He0. destruct (E' i0 p0 Hp0 He0) as [E1 E2]. split; auto.
+    intros q d Hin. rewrite gbq_push in Hin. apply in_app_or in Hin. destruct Hin as [Hin | Hin]; eauto.
+    simpl in Hin. destruct Hin as [F | [F | []]]; [discriminate|]. inversion F; subst q d.
+    intro Hq. assert (X : phs (setph i Gone s) i = Some Idle).
+    { apply E1. rewrite pars_setph, A2. congruence. }
+    rewrite phs_setph, Nat.eqb_refl, A1 in X. discriminate.
+  - (* gbown *)
+    eapply (FR s); [intros; rewrite phs_chins, phs_setpool; reflexivity
+               | intros; rewrite pars_chins, pars_setpool; reflexivity | | exact E].
+    intros g Hin. simpl in Hin. rewrite H in Hin. simpl in Hin. rewrite H. right. auto.
+  - (* gbpar *)
+    eapply (FR s); [intros; rewrite phs_setpool; reflexivity
+                   | intros; rewrite pars_setpool; reflexivity | | exact E].
+    intros g Hin. simpl in Hin. rewrite H in Hin. simpl in Hin. rewrite H. right. auto.
+  - eapply FR; [intros; rewrite phs_chins; apply phs_setpool
+               | intros; rewrite pars_chins; apply pars_setpool | auto | exact E].
+  - eapply FR; [intros; rewrite phs_chins; apply phs_setpool
+               | intros; rewrite pars_chins; apply pars_setpool | auto | exact E].
+Qed.
+
+(* ---------------- what a block has put into its own share *)
+Fixpoint ownsum (i k : nat) (gl : list gb) : Z :=
+  match gl with
+  | [] => 0
+  | GbOwn i' h :: r => (if (i' =? i)%nat then get k h else 0) + ownsum i k r
+  | GbPar _ _ :: r => ownsum i k r
+  end.
+Definition phpart (p : phase) (d : levels) (k : nat) : Z :=
+  match p with Filling | Holding => get k d | _ => 0 end.
+Definition own_nonneg (gl : list gb) : Prop :=
+  forall i h, In (GbOwn i h) gl -> forall k, 0 <= get k h.
+Definition GINS (s : state) : Prop :=
+  own_nonneg (gbq s) /\
+  forall i p, phs s i = Some p -> forall k,
+    get k (insq (S i) s) = phpart p (debs s i) k + ownsum i k (gbq s) /\
+    (p <> Gone -> ownsum i k (gbq s) = 0) /\
+    ownsum i k (gbq s) <= get k (debs s i).
+
+Lemma ownsum_app : forall i k a b, ownsum i k (a ++ b) = ownsum i k a + ownsum i k b.
+Proof. induction a; simpl; intros; auto. destruct a; rewrite IHa; lia. Qed.
+
+Lemma ownsum_nonneg : forall i k gl, own_nonneg gl -> 0 <= ownsum i k gl.
+Proof.
+  induction gl; simpl; intros; [lia|].
+  assert (own_nonneg gl) by (intros i' h Hin; apply (H i' h); right; auto).
+  destruct a; auto. specialize (IHgl H0).
+  destruct (i0 =? i)%nat; [|lia]. specialize (H i0 h (or_introl eq_refl) k). lia.
+Qed.
+
+Lemma ownsum_none : forall i k gl, (forall i' h, In (GbOwn i' h) gl -> i' <> i) -> ownsum i k gl = 0.
+Proof.
+  induction gl; simpl; intros; auto.
+  rewrite IHgl by (intros; eapply H; eauto). destruct a; auto.
+  destruct (i0 =? i)%nat eqn:E; auto. apply Nat.eqb_eq in E. exfalso. eapply H; eauto.
+Qed.
+
+Lemma GINS_frame : forall s s',
+  (forall j, phs s' j = phs s j) -> (forall j, debs s' j = debs s j) ->
+  (forall q, insq q s' = insq q s) -> gbq s' = gbq s -> GINS s -> GINS s'.
+Proof.
+  intros s s' Hp Hd Hi Hg [N I]. split; [rewrite Hg; auto|].
+  intros i p Hph k. rewrite Hp in Hph. rewrite Hd, Hi, Hg. auto.
+Qed.
+
+Lemma GINS_setph : forall s i p b, GINS s -> blk s i = Some b ->
+  (forall d k, phpart p d k = phpart (bph b) d k) -> (p <> Gone -> bph b <> Gone) ->
+  GINS (setph i p s).
+Proof.
+  intros s i p b [N I] Hb Hpp Hg. destruct (blk_acc _ _ _ Hb) as (A1 & A2 & A3).
+  split; auto. intros j pj Hph k. rewrite phs_setph in Hph. rewrite debs_setph.
+  change (insq (S j) (setph i p s)) with (insq (S j) s). change (gbq (setph i p s)) with (gbq s).
+  destruct (j =? i)%nat eqn:E.
+  - apply Nat.eqb_eq in E. subst j. rewrite A1 in Hph. simpl in Hph. inversion Hph; subst pj.
+    destruct (I i (bph b) A1 k) as (I1 & I2 & I3). rewrite Hpp. auto.
+  - auto.
+Qed.
+
+Lemma GINS_trans : forall s s', WF s -> CONS s -> EARLY s -> GINS s -> trans s s' -> GINS s'.
+Proof.
+  intros s s' (L1 & L2 & B & G) C E GI T.
+  destruct T; auto; unfold chpool;
+    try (pose proof (blk_lt _ _ _ H) as Hi; destruct (B _ _ H) as (W1 & W2 & W3);
+         destruct (blk_acc _ _ _ H) as (A1 & A2 & A3)).
+  - (* new *)
+    fold (newst s q d cl). destruct GI as [N I]. split; auto.
+    intros i p Hph k. rewrite phs_newst in Hph. rewrite debs_newst.
+    change (gbq (newst s q d cl)) with (gbq s).
+    assert (IQ : insq (S i) (newst s q d cl) = if (S i <? length (ins s))%nat then insq (S i) s else []).
+    { unfold insq, newst. simpl. destruct (S i <? length (ins s))%nat eqn:X.
+      - apply Nat.ltb_lt in X. apply app_nth1. auto.
+      - apply Nat.ltb_ge in X. destruct (Nat.eq_dec (S i) (length (ins s))).
+        + rewrite app_nth2 by lia. rewrite e, Nat.sub_diag. reflexivity.
+        + apply nth_overflow. rewrite app_length. simpl. lia. }
+    rewrite IQ. destruct (i <? length (blocks s))%nat eqn:Ei.
+    + apply Nat.ltb_lt in Ei. assert (X : (S i <? length (ins s))%nat = true) by (apply Nat.ltb_lt; lia).
+      rewrite X. auto.
+    + destruct (i =? length (blocks s))%nat eqn:Ei2; [|discriminate].
+      apply Nat.eqb_eq in Ei2. inversion Hph; subst p.
+      assert (X : (S i <? length (ins s))%nat = false) by (apply Nat.ltb_ge; lia).
+      rewrite X, get_nil. simpl.
+      assert (Z0 : ownsum i k (gbq s) = 0).
+      { apply ownsum_none. intros i' h Hin. rewrite Forall_forall in G. apply G in Hin. simpl in Hin. lia. }
+      rewrite Z0. repeat split; auto.
+      destruct (Nat.lt_ge_cases k (nkeys s)).
+      * rewrite lle_spec in H1. specialize (H1 k H3). rewrite get_nil in H1. auto.
+      * rewrite get_beyond by lia. lia.
+  - (* phase move *)
+    eapply GINS_setph; eauto.
+    + intros d k. inversion H0; subst;
+        repeat match goal with H : _ \/ _ |- _ => destruct H | H : _ /\ _ |- _ => destruct H end;
+        match goal with H : bph b = _ |- _ => rewrite H end; reflexivity.
+    + intros _. inversion H0; subst;
+        repeat match goal with H : _ \/ _ |- _ => destruct H | H : _ /\ _ |- _ => destruct H end;
+        congruence.
+  - (* take *)
+    eapply (GINS_frame (setph i Taking s)); try (intros; autorewrite with bp; reflexivity).
+    eapply GINS_setph; eauto.
+    + intros d k. destruct H0 as [[P _] | [P _]]; rewrite P; reflexivity.
+    + intros _. destruct H0 as [[P _] | [P _]]; congruence.
+  - (* fill *)
+    destruct GI as [N I]. split; auto.
+    intros j pj Hph k. autorewrite with bp in *. rewrite insq_chins by side. autorewrite with bp.
+    destruct (j =? i)%nat eqn:Ej.
+    + apply Nat.eqb_eq in Ej. subst j. rewrite A1 in Hph. simpl in Hph. inversion Hph; subst pj.
+      destruct (I i (bph b) A1 k) as (I1 & I2 & I3). rewrite H0 in *. simpl in *.
+      rewrite Nat.eqb_refl, get_ladd, A3. rewrite I2 in * by discriminate. repeat split; auto; lia.
+    + assert (X : (S j =? S i)%nat = false) by (simpl; auto). rewrite X. auto.
+  - (* empty *)
+    destruct GI as [N I]. split; auto.
+    intros j pj Hph k. autorewrite with bp in *. rewrite insq_chins by side. autorewrite with bp.
+    destruct (j =? i)%nat eqn:Ej.
+    + apply Nat.eqb_eq in Ej. subst j. rewrite A1 in Hph. simpl in Hph. inversion Hph; subst pj.
+      destruct (I i (bph b) A1 k) as (I1 & I2 & I3). rewrite H0 in *. simpl in *.
+      rewrite Nat.eqb_refl, get_ladd, get_lneg, A3 in *. rewrite I2 in * by discriminate.
+      repeat split; auto; lia.
+    + assert (X : (S j =? S i)%nat = false) by (simpl; auto). rewrite X. auto.
+  - (* return *)
+    eapply (GINS_frame (setph i Returning s)); try (intros; autorewrite with bp; reflexivity).
+    eapply GINS_setph; eauto.
+    + intros d k. rewrite H0. reflexivity.
+    + congruence.
+  - (* giveback *)
+    destruct GI as [N I].
+    assert (HH : forall k, get k h = get k (insq (S i) s) /\ 0 <= get k h /\ get k h <= get k (bdeb b)).
+    { intros k. destruct (I i (bph b) A1 k) as (I1 & I2 & I3). rewrite A3 in *.
+      destruct H0 as [[P Hh] | [[P Hh] | [P Hh]]]; subst h.
+      - assert (Ee : early (bph b) = true) by (destruct P as [P | P]; rewrite P; reflexivity).
+        pose proof (early_out_zero s i (bph b) k E A1 Ee) as Z0.
+        pose proof (C (S i) k) as Cq. rewrite Z0 in Cq.
+        rewrite I2 in I1 by (destruct P as [P | P]; congruence).
+        destruct P as [P | P]; rewrite P in I1; simpl in I1; specialize (W3 k); lia.
+      - rewrite I2 in I1 by congruence. rewrite P in I1. simpl in I1. specialize (W3 k). lia.
+      - rewrite I2 in I1 by congruence. rewrite P in I1. simpl in I1. rewrite get_nil.
+        specialize (W3 k). lia. }
+    split.
+    + intros i' h' Hin k. rewrite gbq_push, gbq_setph in Hin. apply in_app_or in Hin.
+      destruct Hin as [Hin | [Hin | [Hin | []]]]; [eapply N; eauto | | discriminate].
+      inversion Hin; subst. apply HH.
+    + intros j pj Hph k. autorewrite with bp in *. rewrite ownsum_app. simpl.
+      destruct (j =? i)%nat eqn:Ej.
+      * apply Nat.eqb_eq in Ej. subst j. rewrite A1 in Hph. simpl in Hph. inversion Hph; subst pj.
+        destruct (I i (bph b) A1 k) as (I1 & I2 & I3). destruct (HH k) as (H1 & H2 & H3).
+        assert (NG : bph b <> Gone).
+        { destruct H0 as [[[P | P] _] | [[P _] | [P _]]]; congruence. }
+        rewrite I2 by auto. rewrite Nat.eqb_refl, A3. simpl. repeat split; try lia. congruence.
+      * rewrite Nat.eqb_sym, Ej. destruct (I j pj Hph k) as (I1 & I2 & I3).
+        repeat split; auto; try lia. intros. rewrite I2 by auto. lia.
+  - (* gbown *)
+    destruct GI as [N I]. rewrite H in *. inversion G as [|g r' Hg Hr]; subst. simpl in Hg.
+    assert (N' : own_nonneg r) by (intros i' h' Hin; apply (N i' h'); right; auto).
+    split; [autorewrite with bp; rewrite H; auto|].
+    intros j pj Hph k. autorewrite with bp in *. rewrite insq_chins by side. autorewrite with bp.
+    rewrite H. simpl. destruct (I j pj Hph k) as (I1 & I2 & I3). simpl in *.
+    pose proof (N i h (or_introl eq_refl) k) as Hh. pose proof (ownsum_nonneg j k r N') as Hr0.
+    destruct (i =? j)%nat eqn:Ej.
+    + apply Nat.eqb_eq in Ej. subst j. rewrite Nat.eqb_refl, get_ladd, get_lneg.
+      repeat split; try lia. intros X. specialize (I2 X). lia.
+    + rewrite Nat.eqb_sym, Ej.
+      repeat split; auto; lia.
+  - (* gbpar *)
+    destruct GI as [N I]. rewrite H in *.
+    assert (N' : own_nonneg r) by (intros i' h' Hin; apply (N i' h'); right; auto).
+    split; [autorewrite with bp; rewrite H; auto|].
+    intros j pj Hph k. autorewrite with bp in *. rewrite H. simpl.
+    destruct (I j pj Hph k) as (I1 & I2 & I3). simpl in *. auto.
+  - (* adj *)
+    destruct GI as [N I]. split; auto.
+    intros j pj Hph k. autorewrite with bp in *. rewrite insq_chins by side. autorewrite with bp.
+    simpl. auto.
+  - (* set *)
+    destruct GI as [N I]. split; auto.
+    intros j pj Hph k. autorewrite with bp in *. rewrite insq_chins by side. autorewrite with bp.
+    simpl. auto.
+Qed.
+
+(* ---------------- nested borrowing never exceeds the share *)
+Definition NS (s : state) : Prop :=
+  forall i p, phs s i = Some p -> forall k, outstanding (S i) k s <= get k (debs s i).
+
+Lemma ins_le_deb : forall s i p k, GINS s -> phs s i = Some p ->
+  get k (insq (S i) s) <= get k (debs s i).
+Proof.
+  intros s i p k [N I] Hp. destruct (I i p Hp k) as (I1 & I2 & I3).
+  destruct p; simpl in I1; try lia; rewrite I2 in I1 by discriminate; lia.
+Qed.
+
+Lemma out_beyond : forall s q k, WF s -> (length (pools s) <= q)%nat -> outstanding q k s = 0.
+Proof.
+  intros s q k (L1 & L2 & B & G) Hq. unfold outstanding.
+  rewrite osum_zero, gsum_zero; auto.
+  - intros q' d Hin. rewrite Forall_forall in G. apply G in Hin. simpl in Hin. lia.
+  - intros j c Hc Hp. destruct (B j c Hc) as (X & _). pose proof (blk_lt s j c Hc). lia.
+Qed.
+
+Lemma deb_nonneg : forall s i p k, WF s -> phs s i = Some p -> 0 <= get k (debs s i).
+Proof.
+  intros s i p k (L1 & L2 & B & G) Hp. unfold phs, debs in *.
+  destruct (blk s i) as [b|] eqn:Hb; [|discriminate]. destruct (B i b Hb) as (_ & _ & X). auto.
+Qed.
+
+Lemma NS_trans : forall s s', WF s -> CONS s -> GINS s -> NS s -> trans s s' -> NS s'.
+Proof.
+  intros s s' WFs C GI N T. pose proof WFs as (L1 & L2 & B & G).
+  destruct T; auto; unfold chpool;
+    try (pose proof (blk_lt _ _ _ H) as Hi; destruct (B _ _ H) as (W1 & W2 & W3);
+         destruct (blk_acc _ _ _ H) as (A1 & A2 & A3)).
+  - (* new *)
+    fold (newst s q d cl). intros i p Hph k. rewrite phs_newst in Hph. rewrite debs_newst.
+    assert (O : outstanding (S i) k (newst s q d cl) = outstanding (S i) k s).
+    { unfold outstanding, newst. simpl. rewrite osum_app. simpl. unfold outb. simpl.
+      rewrite andb_false_r. lia. }
+    rewrite O. destruct (i <? length (blocks s))%nat eqn:Ei; [eapply N; eauto|].
+    destruct (i =? length (blocks s))%nat eqn:Ei2; [|discriminate]. apply Nat.eqb_eq in Ei2.
+    rewrite out_beyond by (auto; lia).
+    destruct (Nat.lt_ge_cases k (nkeys s)).
+    + rewrite lle_spec in H1. specialize (H1 k H3). rewrite get_nil in H1. auto.
+    + rewrite get_beyond by lia. lia.
+  - (* phase move: held-ness of the moving block is unchanged *)
+    intros j pj Hph k. autorewrite with bp in *.
+    rewrite (out_setph s i p b (S j) k H), held_outb_set. unfold outb.
+    assert (HH : held p = held (bph b)).
+    { inversion H0; subst;
+        repeat match goal with H : _ \/ _ |- _ => destruct H | H : _ /\ _ |- _ => destruct H end;
+        match goal with H : bph b = _ |- _ => rewrite H end; reflexivity. }
+    rewrite HH.
+    assert (exists pj', phs s j = Some pj') as [pj' Hpj'].
+    { destruct (j =? i)%nat; eauto. destruct (phs s j); simpl in Hph; [eauto|discriminate]. }
+    specialize (N j pj' Hpj' k). lia.
+  - (* take *)
+    intros j pj Hph k. autorewrite with bp in *.
+    rewrite (out_setph s i Taking b (S j) k H), held_outb_set. unfold outb.
+    assert (HP : held (bph b) = false) by (destruct H0 as [[P _] | [P _]]; rewrite P; reflexivity).
+    rewrite HP, andb_false_r. simpl. rewrite andb_true_r.
+    assert (exists pj', phs s j = Some pj') as [pj' Hpj'].
+    { destruct (j =? i)%nat; eauto. destruct (phs s j); simpl in Hph; [eauto|discriminate]. }
+    pose proof (N j pj' Hpj' k) as Nj.
+    destruct (bpar b =? S j)%nat eqn:Eq; [|lia]. apply Nat.eqb_eq in Eq.
+    pose proof (ins_le_deb s j pj' k GI Hpj') as IL. pose proof (C (S j) k) as Cq.
+    destruct (Nat.lt_ge_cases k (nkeys s)).
+    + rewrite lge_spec in H1. specialize (H1 k H2). rewrite Eq in H1. lia.
+    + rewrite (get_beyond (bdeb b)) by lia. lia.
+  - (* fill *)
+    intros j pj Hph k. autorewrite with bp in *.
+    rewrite (out_setph s i Filling b (S j) k H), held_outb_set. unfold outb. rewrite H0. simpl.
+    assert (exists pj', phs s j = Some pj') as [pj' Hpj'].
+    { destruct (j =? i)%nat; eauto. destruct (phs s j); simpl in Hph; [eauto|discriminate]. }
+    specialize (N j pj' Hpj' k). lia.
+  - (* empty *)
+    intros j pj Hph k. autorewrite with bp in *.
+    rewrite (out_setph s i Emptying b (S j) k H), held_outb_set. unfold outb. rewrite H0. simpl.
+    assert (exists pj', phs s j = Some pj') as [pj' Hpj'].
+    { destruct (j =? i)%nat; eauto. destruct (phs s j); simpl in Hph; [eauto|discriminate]. }
+    specialize (N j pj' Hpj' k). lia.
+  - (* return *)
+    intros j pj Hph k. autorewrite with bp in *.
+    rewrite (out_setph s i Returning b (S j) k H), held_outb_set. unfold outb. rewrite H0. simpl.
+    rewrite andb_false_r, andb_true_r.
+    assert (exists pj', phs s j = Some pj') as [pj' Hpj'].
+    { destruct (j =? i)%nat; eauto. destruct (phs s j); simpl in Hph; [eauto|discriminate]. }
+    specialize (N j pj' Hpj' k). specialize (W3 k). destruct (bpar b =? S j)%nat; lia.
+  - (* giveback *)
+    intros j pj Hph k. autorewrite with bp in *.
+    rewrite (out_setph s i Gone b (S j) k H), held_outb_set. unfold outb. simpl.
+    assert (HP : held (bph b) = true).
+    { destruct H0 as [[[P | P] _] | [[P _] | [P _]]]; rewrite P; reflexivity. }
+    rewrite HP, andb_false_r, andb_true_r.
+    assert (exists pj', phs s j = Some pj') as [pj' Hpj'].
+    { destruct (j =? i)%nat; eauto. destruct (phs s j); simpl in Hph; [eauto|discriminate]. }
+    specialize (N j pj' Hpj' k). destruct (bpar b =? S j)%nat; lia.
+  - (* gbown *)
+    intros j pj Hph k. autorewrite with bp in *. rewrite (out_pop s _ _ (S j) k H). simpl.
+    specialize (N j pj Hph k). lia.
+  - (* gbpar *)
+    rewrite H in G. inversion G as [|g r' Hg Hr]; subst. simpl in Hg. destruct Hg as [Hq Hd].
+    intros j pj Hph k. autorewrite with bp in *. rewrite (out_pop s _ _ (S j) k H). simpl.
+    specialize (N j pj Hph k). specialize (Hd k). destruct (q =? S j)%nat; lia.
+  - intros j pj Hph k. autorewrite with bp in *. eapply N; eauto.
+  - intros j pj Hph k. autorewrite with bp in *. eapply N; eauto.
+Qed.
+
+(* ---------------- each nested request is within the owner's share (assertion in borrow()) *)
+Definition LIM (s : state) : Prop :=
+  forall j i, pars s j = Some (S i) -> lge (nkeys s) (debs s i) (debs s j) = true.
+
+Lemma trans_frame : forall s s', trans s s' ->
+  (exists q d cl, s' = newst s q d cl /\ (q < length (pools s))%nat /\ limit_ok s q d = true) \/
+  ((forall j, pars s' j = pars s j) /\ (forall j, debs s' j = debs s j) /\ nkeys s' = nkeys s /\
+   cap s' = cap s).
+Proof.
+  intros s s' T. destruct T; unfold chpool;
+    try (right; repeat split; intros; autorewrite with bp; reflexivity).
+  left. exists q, d, cl. auto.
+Qed.
+
+Lemma LIM_trans : forall s s', WF s -> LIM s -> trans s s' -> LIM s'.
+Proof.
+  intros s s' WFs L T. destruct (trans_frame s s' T) as [(q & d & cl & -> & Hq & Hl) | (F1 & F2 & F3 & _)].
+  - intros j i Hp. rewrite pars_newst in Hp. rewrite !debs_newst.
+    change (nkeys (newst s q d cl)) with (nkeys s).
+    destruct (j <? length (blocks s))%nat eqn:Ej.
+    + pose proof (pars_lt s j _ WFs Hp) as [X1 X2].
+      assert (Y : (i <? length (blocks s))%nat = true) by (apply Nat.ltb_lt; lia). rewrite Y. auto.
+    + destruct (j =? length (blocks s))%nat eqn:Ej2; [|discriminate]. inversion Hp; subst q.
+      destruct WFs as (L1 & _). assert (Y : (i <? length (blocks s))%nat = true) by (apply Nat.ltb_lt; lia).
+      rewrite Y. simpl in Hl. unfold debs, blk. destruct (nth_error (blocks s) i); [auto|discriminate].
+  - intros j i Hp. rewrite F1 in Hp. rewrite F3, !F2. auto.
+Qed.
+
+(* ---------------- the invariant *)
+Definition INV (s : state) : Prop :=
+  WF s /\ CONS s /\ NN0 s /\ CLM s /\ WAKE s /\ EARLY s /\ GINS s /\ NS s /\ LIM s.
+
+Lemma INV_init : forall n c lv, (forall k, 0 <= get k lv) -> INV (init n c lv).
+Proof.
+  intros n c lv Hlv. unfold INV, init.
+  assert (NB : forall j, blk (mkS n c [lv] [lv] [] []) j = None) by (intros j; destruct j; reflexivity).
+  assert (NP : forall j, phs (mkS n c [lv] [lv] [] []) j = None) by (intros; unfold phs; rewrite NB; auto).
+  assert (NQ : forall j, pars (mkS n c [lv] [lv] [] []) j = None) by (intros; unfold pars; rewrite NB; auto).
+  split; [|split; [|split; [|split; [|split; [|split; [|split; [|split]]]]]]].
+  - unfold WF. simpl. split; auto. split; auto. split; [|constructor].
+    intros i b Hb. rewrite NB in Hb. discriminate.
+  - intros q k. unfold pool, insq, outstanding. simpl. lia.
+  - exact Hlv.
+  - intros i b Hb. rewrite NB in Hb. discriminate.
+  - intros i b Hb. rewrite NB in Hb. discriminate.
+  - intros i p Hp. rewrite NP in Hp. discriminate.
+  - split; [intros i h []|]. intros i p Hp. rewrite NP in Hp. discriminate.
+  - intros i p Hp. rewrite NP in Hp. discriminate.
+  - intros j i Hp. rewrite NQ in Hp. discriminate.
+Qed.
+
+Lemma INV_trans : forall s s', INV s -> trans s s' -> INV s'.
+Proof.
+  intros s s' (W & C & N & CL & WK & E & GI & NSs & L) T. unfold INV.
+  split; [eapply WF_trans; eauto|]. split; [eapply CONS_trans; eauto|].
+  split; [eapply NN0_trans; eauto|]. split; [eapply CLM_trans; eauto|].
+  split; [eapply WAKE_trans; eauto|]. split; [eapply EARLY_trans; eauto|].
+  split; [eapply GINS_trans; eauto|]. split; [eapply NS_trans; eauto|]. eapply LIM_trans; eauto.
+Qed.
+
+Lemma INV_step : forall s o, INV s -> INV (fst (step s o)).
+Proof.
+  intros s o I. eapply INV_trans; eauto. apply step_trans. destruct I as (_ & _ & N & _). exact N.
+Qed.
+
+Lemma INV_run : forall tr s, INV s -> INV (run s tr).
+Proof. induction tr; simpl; intros; auto. apply IHtr. apply INV_step. auto. Qed.
+
+Definition valid_init (lv : levels) : Prop := forall k, 0 <= get k lv.
+
+Lemma INV_reachable : forall n c lv s, valid_init lv -> reachable_from (init n c lv) s -> INV s.
+Proof. intros n c lv s V [tr ->]. apply INV_run. apply INV_init. auto. Qed.
+
+(* ======================= C12 theorems ======================= *)
+Section Reach.
+Variables (n : nat) (c : option levels) (lv : levels).
+Hypothesis V : valid_init lv.
+Let R (s : state) := reachable_from (init n c lv) s.
+
+(* the supply never drops below zero *)
+Theorem never_negative_thm : forall s, R s -> forall k, 0 <= get k (pool 0 s).
+Proof. intros s H. destruct (INV_reachable n c lv s V H) as (_ & _ & N & _). exact N. Qed.
+
+(* conservation, for every pool (the supply and every borrowed share):
+   available = put in - (amounts of blocks in Taking..Emptying + scheduled give-backs) *)
+Theorem conservation_thm : forall s, R s -> forall q k,
+  get k (pool q s) = get k (insq q s) - outstanding q k s.
+Proof. intros s H. destruct (INV_reachable n c lv s V H) as (_ & C & _). exact C. Qed.
+
+(* at quiescence (no block between take and return, no give-back scheduled) the supply is
+   exactly what was put in: nothing leaked, whatever the exit routes were *)
+Theorem quiescence_thm : forall s, R s -> quiescent s -> forall k,
+  get k (pool 0 s) = get k (insq 0 s).
+Proof.
+  intros s H [Q1 Q2] k. rewrite (conservation_thm s H 0%nat k). unfold outstanding.
+  rewrite Q2. simpl. rewrite osum_zero; [lia|].
+  intros j b Hb _. apply Q1. eapply nth_error_In; eauto.
+Qed.
+
+(* a claim never waits *)
+Theorem claim_never_waits_thm : forall s, R s -> forall i b,
+  blk s i = Some b -> bclaim b = true -> bph b <> WaitAvail.
+Proof. intros s H. destruct (INV_reachable n c lv s V H) as (_ & _ & _ & C & _). exact C. Qed.
+
+(* no missed wake-up: a borrower sleeping un-woken cannot be served *)
+Theorem no_missed_wakeup_thm : forall s, R s -> forall i b,
+  blk s i = Some b -> bph b = WaitAvail -> bwok b = false ->
+  lge (nkeys s) (pool (bpar b) s) (bdeb b) = false.
+Proof. intros s H. destruct (INV_reachable n c lv s V H) as (_ & _ & _ & _ & W & _). exact W. Qed.
+
+(* nested borrowing never exceeds the share: everything taken out of the share of block i
+   and not yet given back is at most what block i borrowed *)
+Theorem nested_le_share_thm : forall s, R s -> forall i b,
+  blk s i = Some b -> forall k, outstanding (S i) k s <= get k (bdeb b).
+Proof.
+  intros s H i b Hb k. destruct (INV_reachable n c lv s V H) as (_ & _ & _ & _ & _ & _ & _ & N & _).
+  destruct (blk_acc _ _ _ Hb) as (A1 & _ & A3). rewrite <- A3. eapply N; eauto.
+Qed.
+
+(* ... and a single nested request is within the share *)
+Theorem nested_request_le_share_thm : forall s, R s -> forall j cb i b,
+  blk s j = Some cb -> bpar cb = S i -> blk s i = Some b ->
+  forall k, (k < nkeys s)%nat -> get k (bdeb cb) <= get k (bdeb b).
+Proof.
+  intros s H j cb i b Hc Hp Hb k Hk.
+  destruct (INV_reachable n c lv s V H) as (_ & _ & _ & _ & _ & _ & _ & _ & L).
+  destruct (blk_acc _ _ _ Hb) as (_ & _ & A3). destruct (blk_acc _ _ _ Hc) as (_ & B2 & B3).
+  assert (X : pars s j = Some (S i)) by congruence.
+  specialize (L j i X). rewrite A3, B3 in L. rewrite lge_spec in L. auto.
+Qed.
+
+Lemma out_nonneg : forall s q k, WF s -> 0 <= outstanding q k s.
+Proof.
+  intros s q k (L1 & L2 & B & G). unfold outstanding.
+  assert (A : 0 <= osum q k (blocks s)).
+  { assert (X : forall bl, (forall b, In b bl -> forall k, 0 <= get k (bdeb b)) -> 0 <= osum q k bl).
+    { induction bl; simpl; intros; [lia|]. unfold outb.
+      specialize (IHbl (fun b Hin => H b (or_intror Hin))). specialize (H a (or_introl eq_refl) k).
+      destruct (_ && _); lia. }
+    apply X. intros b Hin. apply In_nth_error in Hin. destruct Hin as [j Hj].
+    destruct (B j b Hj) as (_ & _ & W). auto. }
+  assert (Bq : 0 <= gsum q k (gbq s)).
+  { clear A. induction (gbq s); simpl; [lia|]. inversion G; subst. specialize (IHl H2).
+    destruct a; simpl in *; [lia|]. destruct H1 as [_ Hd]. specialize (Hd k). destruct (q0 =? q)%nat; lia. }
+  lia.
+Qed.
+
+(* while the owner can use its share (Filling, Holding) the share is within [0, debits] *)
+Theorem share_bounds_while_held_thm : forall s, R s -> forall i b,
+  blk s i = Some b -> bph b = Filling \/ bph b = Holding ->
+  forall k, 0 <= get k (pool (S i) s) <= get k (bdeb b).
+Proof.
+  intros s H i b Hb Hp k.
+  destruct (INV_reachable n c lv s V H) as (W & C & _ & _ & _ & _ & [_ GI] & N & _).
+  destruct (blk_acc _ _ _ Hb) as (A1 & _ & A3).
+  specialize (C (S i) k). specialize (N i _ A1 k). destruct (GI i _ A1 k) as (I1 & I2 & _).
+  pose proof (out_nonneg s (S i) k W). rewrite A3 in *.
+  rewrite I2 in I1 by (destruct Hp as [P | P]; congruence).
+  destruct Hp as [P | P]; rewrite P in I1; simpl in I1; lia.
+Qed.
+
+(* the interval of the property: for the supply (pool 0)
+   supply - (all blocks between enter and exit + scheduled give-backs) <= available
+                                                   <= supply - (blocks holding) *)
+Definition active (p : phase) : bool :=
+  match p with Idle | Gone => false | _ => true end.
+
+Lemma psum_le : forall (f g : phase -> bool) q k bl,
+  (forall p, f p = true -> g p = true) -> (forall b, In b bl -> forall k, 0 <= get k (bdeb b)) ->
+  psum f q k bl <= psum g q k bl.
+Proof.
+  induction bl; simpl; intros; [lia|].
+  specialize (IHbl H (fun b Hin => H0 b (or_intror Hin))). specialize (H0 a (or_introl eq_refl) k).
+  destruct (bpar a =? q)%nat; simpl; try lia.
+  destruct (f (bph a)) eqn:F; [rewrite (H _ F); lia|]. destruct (g (bph a)); lia.
+Qed.
+
+Lemma osum_psum : forall q k bl, osum q k bl = psum held q k bl.
+Proof. induction bl; simpl; auto. unfold outb. rewrite IHbl. reflexivity. Qed.
+
+Theorem interval_thm : forall s, R s -> forall k,
+  get k (insq 0 s) - (psum active 0 k (blocks s) + gsum 0 k (gbq s)) <= get k (pool 0 s) /\
+  get k (pool 0 s) <= get k (insq 0 s) - psum is_holding 0 k (blocks s).
+Proof.
+  intros s H k. destruct (INV_reachable n c lv s V H) as (W & C & _).
+  specialize (C 0%nat k). unfold outstanding in C. rewrite osum_psum in C.
+  pose proof W as (L1 & L2 & B & G).
+  assert (D : forall b, In b (blocks s) -> forall k, 0 <= get k (bdeb b)).
+  { intros b Hin. apply In_nth_error in Hin. destruct Hin as [j Hj]. destruct (B j b Hj) as (_ & _ & X). auto. }
+  assert (A1 : psum held 0 k (blocks s) <= psum active 0 k (blocks s))
+    by (apply psum_le; auto; destruct p; simpl; auto; discriminate).
+  assert (A2 : psum is_holding 0 k (blocks s) <= psum held 0 k (blocks s))
+    by (apply psum_le; auto; destruct p; simpl; auto; discriminate).
+  assert (A3 : 0 <= gsum 0 k (gbq s)).
+  { clear - G. induction (gbq s); simpl; [lia|]. inversion G; subst. specialize (IHl H2).
+    destruct a; simpl in *; [lia|]. destruct H1 as [_ Hd]. specialize (Hd k). destruct (q =? 0)%nat; lia. }
+  lia.
+Qed.
+
+End Reach.
+
+(* the supply of a Capacities never changes *)
+Theorem capacities_supply_const_thm : forall n lv s, valid_init lv ->
+  reachable_from (init n (Some lv) lv) s -> cap s = Some lv /\ insq 0 s = lv.
+Proof.
+  intros n lv s V [tr ->].
+  assert (G : forall tr s0, INV s0 -> cap s0 = Some lv /\ insq 0 s0 = lv ->
+              cap (run s0 tr) = Some lv /\ insq 0 (run s0 tr) = lv).
+  { clear. induction tr; simpl; intros s0 I [C0 I0]; auto. apply IHtr; [apply INV_step; auto|].
+    assert (T : trans s0 (fst (step s0 a))) by (apply step_trans; destruct I as (_ & _ & N & _); exact N).
+    destruct I as ((L1 & L2 & B & G) & _).
+    destruct T; auto; unfold chpool;
+      try (pose proof (blk_lt _ _ _ H) as Hi);
+      try (rewrite H in G; inversion G as [|g r' Hg Hr]; subst; simpl in Hg);
+      try (split; [exact C0|]; autorewrite with bp; try rewrite insq_chins by side; autorewrite with bp;
+           simpl; auto; fail); try congruence.
+    split; auto. unfold insq in *. simpl. rewrite app_nth1 by lia. auto. }
+  apply G; [apply INV_init; auto | auto].
+Qed.
+
+(* borrow is atomic: a block passes from "has nothing" to "has its amount" in ONE section, which
+   ends in Taking, happens only in a state where the whole amount is available in the parent
+   pool, and removes exactly the whole amount from it *)
+Theorem borrow_atomic_thm : forall s o i p p', INV s ->
+  phs s i = Some p -> held p = false -> phs (fst (step s o)) i = Some p' -> held p' = true ->
+  p' = Taking /\ exists q, pars s i = Some q /\
+  lge (nkeys s) (pool q s) (debs s i) = true /\
+  forall k, get k (pool q (fst (step s o))) = get k (pool q s) - get k (debs s i).
+Proof.
+  intros s o i p p' I Hp Hh Hp' Hh'.
+  assert (T : trans s (fst (step s o))) by (apply step_trans; destruct I as (_ & _ & N & _); exact N).
+  destruct I as ((L1 & L2 & B & G) & _).
+  remember (fst (step s o)) as s'. clear Heqs'.
+  destruct T; unfold chpool in *; autorewrite with bp in *;
+    try (pose proof (blk_lt _ _ _ H) as Hi; destruct (B _ _ H) as (W1 & W2 & W3);
+         destruct (blk_acc _ _ _ H) as (A1 & A2 & A3)).
+  - congruence.
+  - fold (newst s q d cl) in Hp'. rewrite phs_newst in Hp'.
+    destruct (i <? length (blocks s))%nat; [congruence|].
+    destruct (i =? length (blocks s))%nat; inversion Hp'; subst; discriminate.
+  - destruct (i =? i0)%nat eqn:E; [|congruence]. apply Nat.eqb_eq in E. subst i0.
+    rewrite A1 in Hp, Hp'. simpl in Hp'. inversion Hp; inversion Hp'; subst.
+    exfalso. inversion H0; subst; simpl in Hh'; try discriminate.
+    rewrite H1 in Hh. discriminate.
+  - destruct (i =? i0)%nat eqn:E; [|congruence]. apply Nat.eqb_eq in E. subst i0.
+    rewrite A1 in Hp'. simpl in Hp'. inversion Hp'; subst. split; auto.
+    exists (bpar b). split; auto. rewrite A3. split; auto.
+    intros k. rewrite pool_setpool by side. autorewrite with bp. rewrite Nat.eqb_refl, get_ladd, get_lneg. lia.
+  - destruct (i =? i0)%nat eqn:E; [|congruence]. apply Nat.eqb_eq in E. subst i0.
+    rewrite A1 in Hp. inversion Hp; subst. rewrite H0 in Hh. discriminate.
+  - destruct (i =? i0)%nat eqn:E; [|congruence]. apply Nat.eqb_eq in E. subst i0.
+    rewrite A1 in Hp. inversion Hp; subst. rewrite H0 in Hh. discriminate.
+  - destruct (i =? i0)%nat eqn:E; [|congruence]. apply Nat.eqb_eq in E. subst i0.
+    rewrite A1 in Hp. inversion Hp; subst. rewrite H0 in Hh. discriminate.
+  - destruct (i =? i0)%nat eqn:E; [|congruence]. apply Nat.eqb_eq in E. subst i0.
+    rewrite A1 in Hp'. simpl in Hp'. inversion Hp'; subst. discriminate.
+  - congruence.
+  - congruence.
+  - congruence.
+  - congruence.
+Qed.
+
+(* claim: on entry it raises ResourcesUnavailable iff the amount is not available, otherwise it
+   takes in that very section; it never subscribes *)
+Theorem claim_entry_thm : forall s i b, blk s i = Some b -> bclaim b = true -> bph b = Idle ->
+  owner_ok s (bpar b) = true ->
+  (lge (nkeys s) (pool (bpar b) s) (bdeb b) = false ->
+     snd (step s (Step i)) = OUnavail /\ phs (fst (step s (Step i))) i = Some Gone /\
+     pools (fst (step s (Step i))) = pools s) /\
+  (lge (nkeys s) (pool (bpar b) s) (bdeb b) = true ->
+     snd (step s (Step i)) = OTook /\ phs (fst (step s (Step i))) i = Some Taking).
+Proof.
+  intros s i b Hb Hc Hp Ho. destruct (blk_acc _ _ _ Hb) as (A1 & _ & _).
+  unfold blk in Hb. split; intros L; simpl; rewrite Hb, Hp, Ho; unfold try_enter, take; rewrite L, ?Hc; simpl.
+  - repeat split; auto. rewrite phs_setph, Nat.eqb_refl, A1. reflexivity.
+  - split; auto. unfold chpool. rewrite phs_setpool, phs_setph, Nat.eqb_refl, A1. reflexivity.
+Qed.
+
+(* every scheduled give-back can run, and running it shortens the queue *)
+Theorem giveback_runs_thm : forall s, gbq s <> [] ->
+  snd (step s RunGb) = OOk /\ gbq (fst (step s RunGb)) = tl (gbq s).
+Proof.
+  intros s H. simpl. destruct (gbq s) as [|[i h|q d] r] eqn:E; [congruence| |]; simpl;
+    unfold chpool; autorewrite with bp; rewrite E; auto.
+Qed.
+
+(* REFUTED as a full-strength statement: "no pool ever goes below zero".  A borrowed SHARE can:
+   block 0 borrows 3 of 4, nested block 1 borrows 1 of the share; the task is signalled twice
+   in a row: the first signal starts the inner exit (own -= 1, postponed), the second lands in
+   that postponement (inner give-back of 1 to the share is only scheduled) and propagates to
+   the outer __aexit__, which removes its 3 from a share that holds 2. *)
+Definition double_fault : list op :=
+  [New 0 [3] false; Step 0; Step 0; Step 0; New 1 [1] false; Step 1; Step 1; Step 1;
+   Signal 1; Signal 1; Signal 0].
+
+Theorem share_negative_after_double_fault_refuted :
+  ~ (forall s, reachable_from (init 1 (Some [4]) [4]) s -> forall q k, 0 <= get k (pool q s)).
+Proof.
+  intros H. specialize (H (run (init 1 (Some [4]) [4]) double_fault)).
+  assert (X : reachable_from (init 1 (Some [4]) [4]) (run (init 1 (Some [4]) [4]) double_fault))
+    by (exists double_fault; reflexivity).
+  specialize (H X 1%nat 0%nat). vm_compute in H. apply H. reflexivity.
+Qed.
+
+(* used by the Examples of props/C12.v *)
+(* Capacities(4): A borrows 3, B (wants 2) waits; A is cancelled while its first acquire
+   postponement is pending (Taking): the give-backs run, B is woken and takes *)
+Definition demo : list op :=
+  [New 0 [3] false; New 0 [2] false; Step 0; Step 1; Signal 0; RunGb; RunGb; Step 1; Step 1; Step 1].
+
+(* ... and ONE signal suffices when it lands in a postponement of the nested block's own acquire
+   (or of its normal release): the nested give-back is only scheduled, the exception unwinds
+   into the owner's __aexit__ ([Signal 0] in Holding = the body raised) *)
+Definition single_fault : list op :=
+  [New 0 [3] false; Step 0; Step 0; Step 0; New 1 [1] false; Step 1; Signal 1; Signal 0].
+
+Theorem share_negative_after_single_fault_refuted :
+  ~ (forall s, reachable_from (init 1 (Some [4]) [4]) s -> forall q k, 0 <= get k (pool q s)).
+Proof.
+  intros H. specialize (H (run (init 1 (Some [4]) [4]) single_fault)).
+  assert (X : reachable_from (init 1 (Some [4]) [4]) (run (init 1 (Some [4]) [4]) single_fault))
+    by (exists single_fault; reflexivity).
+  specialize (H X 1%nat 0%nat). vm_compute in H. apply H. reflexivity.
 Qed.
